@@ -95,14 +95,17 @@ def audit_run(ctx, run, T_over):
         ctx.count("relations-evaluated")
         ctx.count("relation-branch:" + ("starving" if p3 < T - tolp else "fed") + ("/round1-reaches-T" if p1 >= T else "/round1-below-T"))
         if not ok:
-            what = []
+            regime = "no-storage-between-years" if not bool(run.solves[0].opt.consts_for_optimizer["STORE_FOOD_BETWEEN_YEARS"]) else "storage-between-years"
+            det = dict(case0, p1=p1, p3=p3, drawn=drawn, need=need, regime=regime)
             if p3 < T - tolp and drawn > TOL_F * need:
-                what.append("final %.4f %% < T=%g %% but %.4g billion kcals (%.3g %% of the monthly requirement) are drawn for feed/biofuel in some month" % (p3, T, drawn, 100 * drawn / need))
+                ctx.violation("feed-while-below-threshold:" + regime,
+                              "%s: final %.4f %% < T=%g %% but %.4g billion kcals (%.3g %% of the monthly requirement) are drawn for feed/biofuel in some month (%s)" % (
+                                  run.iso, p3, T, drawn, 100 * drawn / need, regime), det)
             if p3 < T - tolp and p3 < p1 - tolp:
-                what.append("final %.4f %% is lower than the no-feed round's %.4f %%" % (p3, p1))
+                ctx.violation("final-below-no-feed-round", "%s: final %.4f %% is lower than the no-feed round's %.4f %%" % (run.iso, p3, p1), det)
             if p1 >= T and p3 < T - tolp:
-                what.append("the no-feed round reaches T=%g %% (%.4f %%) but the final result is %.4f %%" % (T, p1, p3))
-            ctx.violation("inter-round-relation", "%s: %s" % (run.iso, "; ".join(what)), dict(case0, p1=p1, p3=p3, drawn=drawn, need=need))
+                ctx.violation("final-below-threshold-although-round1-reaches-it",
+                              "%s: the no-feed round reaches T=%g %% (%.4f %%) but the final result is %.4f %%" % (run.iso, T, p1, p3), det)
         ctx.case((run.iso, sorted(run.opts.items()), T), nontrivial=float(np.max(feed_demand + bio_demand)) > 0,
                  sample={"country": run.iso, "T": T, "p1": p1, "p3": p3, "max_drawn": drawn, "need": need,
                          "options": {a: b for a, b in run.opts.items() if pipeline.BASE_OPTIONS.get(a) != b}})
